@@ -102,7 +102,8 @@ Proof.
   destruct (read_fixed_spec 4 s HI ltac:(lia)) as [vf [s1 [E1 [I1 [B1 [P1 _]]]]]]. rewrite E1. cbn [rbind].
   destruct (0 <? vf / 16777216)%N; [exact I|].
   destruct (read_fixed_spec 4 s1 I1 ltac:(lia)) as [cnt [s2 [E2 [I2 [B2 [P2 _]]]]]]. rewrite E2. cbn [rbind].
-  destruct (hasf (N.land vf flags_mask) 2 && (subu64 (hsize h) 16 <? 2 * cnt)%N); [exact I|].
+  destruct (w64 (payload_len h - 8) <? 0); [exact I|].
+  destruct (hasf (N.land vf flags_mask) 2 && (u64z (w64 (payload_len h - 8)) <? 2 * cnt)%N); [exact I|].
   destruct (read_bytes_spec (w64 (payload_len h - 8)) s2 I2) as [raw [s3 [E3 [I3 [B3 P3]]]]]. rewrite E3. cbn [rbind].
   destruct (rerr s3); [exact I|]. cbn [okstep]. split; [apply Inv_W; exact I3|]. split; [congruence|lia].
 Qed.
@@ -245,7 +246,7 @@ Proof.
   split; [reflexivity|]. split.
   - intros pre post cst Hall. cbn [ld_sr pair_leaves]. unfold pair_sr. fold h.
     change (eqb_name (hname h) name_trun) with false. change (eqb_name (hname h) name_senc) with true. cbv iota.
-    cbn [sr]. pose proof (senc_pair_agree h p pre post eq_refl eq_refl ltac:(cbn [hsize h]; lia) Hall) as HA.
+    cbn [sr]. pose proof (senc_pair_agree h p pre post (or_introl eq_refl) eq_refl ltac:(cbn [hsize h]; lia) Hall) as HA.
     unfold agree_at in HA. rewrite Hv in HA. rewrite HA.
     unfold wrap_sr. cbn [scost]. rewrite Hsz. eexists. reflexivity.
   - intros pre post cst Hall. cbn [ld_r pair_leaves]. unfold pair_r. fold h.
